@@ -178,6 +178,99 @@ def r_newtype(ck: Checker) -> None:
                      unwraps=unwraps)
 
 
+def r_quantify_all(ck: Checker) -> None:
+    """Predicates over the members of a union / the arguments of a generic consider every member: the members are
+    consumed only by any()/all() generators (or the enumerated variadic-tuple idiom), never by position or first-match."""
+    for name in ("is_optional", "has_check_type_in_type", "is_valid_property_type", "_is_valid_child_field_type"):
+        f = ck.repo.func(TYPING, name)
+        fn = f.node
+        parents: dict[int, ast.AST] = {}
+        for p in ast.walk(fn):
+            for c in ast.iter_child_nodes(p):
+                parents[id(c)] = p
+        argvars = {norm(st.targets[0]) for st in walk_body(fn.body) if isinstance(st, ast.Assign) and isinstance(st.value, ast.Call)
+                   and dotted(st.value.func) == "get_args" and isinstance(st.targets[0], ast.Name)}
+        uses: list[ast.AST] = []
+        for n in walk_body(fn.body):
+            if isinstance(n, ast.Call) and dotted(n.func) == "get_args":
+                p = parents.get(id(n))
+                if not (isinstance(p, ast.Assign) and p.value is n):
+                    uses.append(n)
+            elif isinstance(n, ast.Name) and isinstance(n.ctx, ast.Load) and n.id in argvars:
+                uses.append(n)
+        bad = []
+        ok_n = 0
+        for u in uses:
+            p = parents.get(id(u))
+            if isinstance(p, ast.comprehension) and p.iter is u:
+                gen = parents.get(id(p))
+                call = parents.get(id(gen))
+                if isinstance(gen, (ast.GeneratorExp, ast.ListComp)) and isinstance(call, ast.Call) and dotted(call.func) in ("any", "all"):
+                    ok_n += 1
+                else:
+                    bad.append(f"members consumed by {norm(call)[:60] if call is not None else norm(gen)[:60]} (not any()/all() over all members)")
+            elif isinstance(p, ast.Call) and dotted(p.func) == "len":
+                ok_n += 1
+            elif isinstance(p, ast.Subscript) and p.value is u:
+                idx = norm(p.slice)
+                gp = parents.get(id(p))
+                # enumerated idiom: tuple[X, ...]  ->  len(args) == 2 and args[1] is Ellipsis ; then args[0]
+                if idx == "1" and isinstance(gp, ast.Compare) and norm(gp) == f"{norm(u)}[1] is Ellipsis":
+                    ok_n += 1
+                elif idx == "0" and "[1] is Ellipsis" in norm(_enclosing_if_test(p, parents) or ast.Constant(value="")):
+                    ok_n += 1
+                else:
+                    bad.append(f"member selected by position: {norm(p)}")
+            elif isinstance(p, ast.Compare) and isinstance(p.ops[0], (ast.In, ast.NotIn)) and p.comparators[0] is u:
+                ok_n += 1
+            elif isinstance(p, ast.Call) and dotted(p.func) in ("next", "iter", "list", "tuple", "min", "max", "sorted"):
+                bad.append(f"members consumed by {norm(p)[:60]} (first match / re-ordering)")
+            else:
+                ok_n += 1
+        what = f"{name}: the members of a union / generic are quantified over with any()/all() (never selected by position or first match)"
+        if bad:
+            ck.violation("R-QUANTIFY-ALL", f, fn, what, construct=f"{name}: {bad[0]}")
+        elif not uses:
+            ck.incomplete("R-QUANTIFY-ALL", f, fn, f"{name} no longer looks at get_args()")
+        else:
+            ck.holds("R-QUANTIFY-ALL", f, fn, what, evaluations=len(uses))
+
+
+def _enclosing_if_test(n: ast.AST, parents: dict[int, ast.AST]) -> ast.expr | None:
+    cur = n
+    while id(cur) in parents:
+        prev, cur = cur, parents[id(cur)]
+        if isinstance(cur, ast.If) and any(prev is s for s in cur.body):
+            return cur.test
+    return None
+
+
+def r_child_kind(ck: Checker, rule: str = "R-CHILD-KIND") -> None:
+    """The collection flag of a child field is decided by the tuple shape of its annotation, never by an ABC test that a
+    node class itself can satisfy (a node defining __len__/__iter__/__contains__ is a collections.abc.Collection)."""
+    f = ck.repo.func(TYPING, "process_node_fields")
+    lp = [st for st in f.node.body if isinstance(st, ast.For)]
+    if len(lp) != 1:
+        raise Unsupported("process_node_fields loop not found", f.node)
+    tvar = norm(lp[0].target.elts[1])
+    rets = [r for r in f.node.body if isinstance(r, ast.Return)]
+    child_t = norm(rets[0].value.elts[0])
+    stores = [st for st in walk_body(lp[0].body) if isinstance(st, ast.Assign) and isinstance(st.targets[0], ast.Subscript) and norm(st.targets[0].value) == child_t]
+    what = "a child field is a sequence of children iff its annotation is a tuple (FieldTypeInfo(is_tuple(type), type))"
+    if len(stores) != 1:
+        raise Unsupported("child table store not found", lp[0])
+    v = norm(stores[0].value)
+    if v == f"FieldTypeInfo(is_tuple({tvar}), {tvar})":
+        ck.holds(rule, f, stores[0], what)
+    else:
+        ck.violation(rule, f, stores[0], what, construct=f"process_node_fields: child field info is {v} (is_collection is an ABC test that node classes can satisfy)")
+    g = ck.repo.func(TYPING, "is_tuple")
+    txt = norm(g.node)
+    what = "is_tuple recognises tuple annotations by their origin (tuple / typing.Tuple)"
+    ok = "orig is tuple or orig is Tuple" in txt
+    (ck.holds if ok else ck.violation)(rule, g, g.node, what, **({} if ok else {"construct": "is_tuple: origin test not recognised"}))
+
+
 def run(ck: Checker) -> None:
     ck.explanation = (
         "Decision tables of the two classification loops (process_node_fields, check_annotations) over the three predicate outcomes: one landing "
@@ -191,5 +284,9 @@ def run(ck: Checker) -> None:
     ck.guard("R-CLASSIFY-SIBLING", lambda: r_classify_sibling(ck))
     ck.guard("R-NORMALISE", lambda: r_normalise(ck))
     ck.guard("R-NEWTYPE", lambda: r_newtype(ck))
+    ck.guard("R-QUANTIFY-ALL", lambda: r_quantify_all(ck))
+    ck.guard("R-CHILD-KIND", lambda: r_child_kind(ck))
+    from . import templates_rules as T
+    ck.guard("R-TYPES-CACHE", lambda: T.r_types_cache(ck))
     ck.require_count("R-ONE-LANDING", 4)
     ck.require_count("R-CLASSIFY-SIBLING", 3)
